@@ -1327,6 +1327,140 @@ func (w c12Writer) Write(b []byte) (int, error) {
 	return w.Writer.Write(b)
 }
 
+// c12Async: handlers that answer later. The handler keeps the request and the writer, returns at once,
+// and a goroutine of its own writes the reply after a moment (what a forwarder does while it waits for
+// its upstream). One client pipelines ten queries on one stream connection - simulated (every write takes
+// a moment), real TCP, real TLS; some replies exceed 4096 octets. Each query gets exactly one reply, built
+// from the request its handler was given (same ID, same question, digest of the request as sent), and
+// the reply frames of concurrent writers do not cut into each other.
+func c12Async(w *core.W, j int) {
+	transport := []string{"sim", "tcp", "tcp-tls"}[j%3]
+	var pending sync.WaitGroup
+	h := dns.HandlerFunc(func(rw dns.ResponseWriter, req *dns.Msg) {
+		pending.Add(1)
+		delay := time.Duration(req.Id%7) * 300 * time.Microsecond
+		go func() {
+			defer pending.Done()
+			time.Sleep(delay)
+			r := new(dns.Msg)
+			r.SetReply(req)
+			d := "pack-error"
+			if b, err := req.Pack(); err == nil {
+				s := sha256.Sum256(b)
+				d = hex.EncodeToString(s[:])
+			}
+			r.Extra = append(r.Extra, &dns.TXT{Hdr: dns.RR_Header{Name: "digest.", Rrtype: dns.TypeTXT, Class: 1}, Txt: []string{d}})
+			if len(req.Question) > 0 && strings.HasPrefix(req.Question[0].Name, "big") {
+				for i := 0; i < 22; i++ {
+					r.Answer = append(r.Answer, &dns.TXT{Hdr: dns.RR_Header{Name: req.Question[0].Name, Rrtype: dns.TypeTXT, Class: 1, Ttl: 1}, Txt: []string{strings.Repeat("x", 250)}})
+				}
+			}
+			rw.WriteMsg(r)
+		}()
+	})
+	started := make(chan struct{})
+	srv := &dns.Server{Handler: h, ReadTimeout: time.Hour, IdleTimeout: func() time.Duration { return time.Hour }, NotifyStartedFunc: func() { close(started) }}
+	var ln *netsim.Listener
+	var cliTLS *tls.Config
+	serveErr := make(chan error, 1)
+	switch transport {
+	case "sim":
+		ln = netsim.NewListener()
+		ln.Prepare = func(sv *netsim.Stream) { sv.WriteGap = 150 * time.Microsecond }
+		srv.Listener = ln
+		go func() { serveErr <- srv.ActivateAndServe() }()
+	default:
+		srv.Net, srv.Addr = transport, "127.0.0.1:0"
+		if transport == "tcp-tls" {
+			srv.TLSConfig, cliTLS = c13TLS()
+		}
+		go func() { serveErr <- srv.ListenAndServe() }()
+	}
+	select {
+	case <-started:
+	case err := <-serveErr:
+		w.Inconclusive("async-listen:" + fmt.Sprint(err))
+		return
+	case <-time.After(c12Watch):
+		w.Inconclusive("async-server-did-not-start")
+		return
+	}
+	defer func() {
+		within(c12Watch, pending.Wait)
+		srv.Shutdown()
+		<-serveErr
+	}()
+	var conn net.Conn
+	var err error
+	switch transport {
+	case "sim":
+		conn, err = ln.Dial()
+	case "tcp":
+		conn, err = net.Dial("tcp", srv.Listener.Addr().String())
+	default:
+		conn, err = tls.Dial("tcp", srv.Listener.Addr().String(), cliTLS)
+	}
+	if err != nil {
+		w.Inconclusive("async-dial:" + err.Error())
+		return
+	}
+	defer conn.Close()
+	const k = 10
+	type sentQ struct{ name, digest string }
+	sent := map[uint16]sentQ{}
+	var stream []byte
+	for i := 0; i < k; i++ {
+		q := new(dns.Msg)
+		name := fmt.Sprintf("q%d-j%d.async.example.", i, j)
+		if i%3 == 1 {
+			name = "big" + name
+		}
+		q.SetQuestion(name, dns.TypeTXT)
+		q.Id = uint16(0x2000 + 16*(j%200) + i)
+		b, _ := q.Pack()
+		s := sha256.Sum256(b)
+		sent[q.Id] = sentQ{name, hex.EncodeToString(s[:])}
+		stream = append(stream, frame(b)...)
+	}
+	w.Eval(1)
+	w.Count("async_pipelines_"+transport, 1)
+	conn.Write(stream)
+	conn.SetReadDeadline(time.Now().Add(c12Watch))
+	seen := map[uint16]bool{}
+	wit := map[string]any{"transport": transport, "queries": k}
+	for n := 0; n < k; n++ {
+		var l [2]byte
+		if _, err := io.ReadFull(conn, l[:]); err != nil {
+			w.Violation("C12/async/replies-missing/"+transport, fmt.Sprintf("%d queries pipelined on one connection, handlers answer from goroutines of their own: %d replies arrived, then %v", k, n, err), wit)
+			return
+		}
+		body := make([]byte, binary.BigEndian.Uint16(l[:]))
+		if _, err := io.ReadFull(conn, body); err != nil {
+			w.Violation("C12/async/reply-stream-mangled/"+transport, fmt.Sprintf("reply %d: the stream ends inside a frame of %d octets: %v", n, len(body), err), wit)
+			return
+		}
+		r := new(dns.Msg)
+		if err := r.Unpack(body); err != nil {
+			w.Violation("C12/async/reply-stream-mangled/"+transport, fmt.Sprintf("reply %d (frame of %d octets) does not decode: %v - the frames of concurrent writers cut into each other", n, len(body), err), wit)
+			return
+		}
+		sq, ok := sent[r.Id]
+		switch {
+		case !ok:
+			w.Violation("C12/async/reply-for-unsent-id/"+transport, fmt.Sprintf("reply with ID %#x, which was not sent", r.Id), wit)
+		case seen[r.Id]:
+			w.Violation("C12/async/two-replies-for-one-request/"+transport, fmt.Sprintf("a second reply with ID %#x (each handler answers the request it was given: another handler's request has been overwritten)", r.Id), wit)
+		case len(r.Question) != 1 || r.Question[0].Name != sq.name:
+			w.Violation("C12/async/reply-mixes-requests/"+transport, fmt.Sprintf("the reply with ID %#x carries the question %v, the request with that ID asked for %s", r.Id, r.Question, sq.name), wit)
+		case len(r.Extra) == 0 || r.Extra[len(r.Extra)-1].(*dns.TXT).Txt[0] != sq.digest:
+			w.Violation("C12/async/handler-saw-altered-request/"+transport, fmt.Sprintf("the handler of request %#x digested something else than the client sent", r.Id), wit)
+		}
+		seen[r.Id] = true
+	}
+	w.Count("async_replies_checked", len(seen))
+	w.NontrivialStr("async", transport, fmt.Sprint(j))
+}
+
 // c12MultiHomed: a UDP server on the wildcard address, one client per local address (127.0.0.1 and
 // 127.0.0.2). The first client's handler is held until the second client's datagram has been read;
 // each reply must reach the client it belongs to, i.e. leave from the address that client talked to.
@@ -1468,6 +1602,7 @@ func init() {
 		section{"respwrite", tiered(3, 30), c12ResponseWrite},
 		section{"crosstalk", tiered(18, 400), c12CrossTalk},
 		section{"multihomed", tiered(8, 100), c12MultiHomed},
+		section{"async-handlers", tiered(30, 600), c12Async},
 		section{"server-datagram-sizes", tiered(6, 100), c12ServerDatagramSizes},
 	)
 	core.Register(&core.Monitor{
@@ -1476,6 +1611,6 @@ func init() {
 			"65536+ octet writes; stream/datagram ID handling with 0..5 stale/duplicate/foreign replies in seeded orders; cross-talk: 4..32 concurrent clients x 12 unique requests against real loopback UDP/TCP servers with scribbled recycled buffers and hook delays, offline exactly-once/no-mixing check; a third of the clients sign with TSIG (handler must see TsigStatus nil, signed replies must verify); after every split plan the following message on the stream is read too, incl. segments that carry the end of one frame and the start of the next; race detector on; " +
 			"non-trivial = distinct (size, split plan) / scripted reply order / cross-talk round",
 		Assumptions: []string{"loss of UDP datagrams is legal: an unanswered request stays open, never 'failed'", "a watchdog of 20 s decides 'hang' for in-memory transports"},
-		MinObserved: []string{"split_plans", "fault_offsets", "server_split_plans", "datagram_scripts", "exchanges_udp", "exchanges_tcp", "hook_poolPut", "oversize_response_writes", "following_messages_read", "conn_read_calls", "write_sequences", "multihomed_rounds", "signed_requests_handled_udp", "signed_requests_handled_tcp", "exchanges_tcp-tls", "declared_source_addresses_checked_udp", "declared_source_addresses_checked_tcp"},
+		MinObserved: []string{"split_plans", "fault_offsets", "server_split_plans", "datagram_scripts", "exchanges_udp", "exchanges_tcp", "hook_poolPut", "oversize_response_writes", "following_messages_read", "conn_read_calls", "write_sequences", "multihomed_rounds", "signed_requests_handled_udp", "signed_requests_handled_tcp", "exchanges_tcp-tls", "declared_source_addresses_checked_udp", "declared_source_addresses_checked_tcp", "async_replies_checked"},
 	})
 }
